@@ -14,7 +14,7 @@ import numpy as np
 from . import core, shim, tlc
 from .c03 import green
 
-RAW = {"Vals": "-3..3", "UVals": "-2..2"}
+RAW = {"Vals": "-3..3", "UVals": "-2..2", "Group": "{}"}
 _SIMS: dict = {}
 _DAMP: dict = {}
 
